@@ -831,8 +831,9 @@ From RU Require Import Proofs.C01_EqAsm.
    (non-special) | special non-file scheme | no scheme (failure on both sides);  base: '#' | '?' | empty
    reference | opaque-base failure | the three relative-reference classes against a non-special base | a
    reference with a scheme of its own that makes both sides ignore the base (in_class_abs_base, see the block
-   'references with a scheme of their own' below) and that is in a no-base class | the three scheme-less
-   reference classes against a special non-file base with a host (in_class_relative_s, block 'special bases').
+   'references with a scheme of their own' below) and that is in a no-base class | the scheme-less and
+   same-scheme reference classes against a special non-file base with a host (in_class_relative_s, block
+   'special bases').
    It contains in_proved_class2 (C01_class3_contains_class2).
    ONE base relation: base_rel3 = no base on both sides, or a pair in good_base = `related` and spec_base_ok
    (lower-case scheme, no '/' inside a path segment of the Standard's record).
@@ -1166,8 +1167,8 @@ Print Assumptions C01_statement_own_scheme_base_model.
 
 (* non-vacuity: the parse result of "http://example.com/a" (a special base, obtained from the theorem itself) as
    base; "https://h.x/p", "n://H/q" and "mailto:z" against it are in in_proved_class3, outside Known_C01, the host
-   query is the one of the no-base class, and both sides agree; "http:b" (same scheme as the base) is NOT
-   in the class - there the base is consulted *)
+   query is the one of the no-base class, and both sides agree; "http:b" (same scheme as the base) is not
+   in in_class_abs_base - there the base is consulted (it is in in_class_same_path_s, block 'special bases') *)
 Example C01_own_scheme_nonvacuous :
   let idna := ex_idna_clean in
   let shp := spec_host_parser idna in
@@ -1181,7 +1182,7 @@ Example C01_own_scheme_nonvacuous :
   match P None i0, S None i0 with
   | POk u0, BDone su0 =>
       in_proved_class3 (Some su0) i1 = true /\ in_proved_class3 (Some su0) i2 = true
-      /\ in_proved_class3 (Some su0) i3 = true /\ in_proved_class3 (Some su0) i4 = false
+      /\ in_proved_class3 (Some su0) i3 = true /\ in_class_abs_base su0 i4 = false
       /\ known_c01 (Some u0) i1 = 0 /\ known_c01 (Some u0) i2 = 0 /\ known_c01 (Some u0) i3 = 0
       /\ class_host_query (Some su0) i1 = Some (false, [104; 46; 120])
       /\ class_host_query (Some su0) i2 = Some (true, [72])
@@ -1312,4 +1313,127 @@ Example C01_special_base_nonvacuous :
             | _, _ => False end
      | _, _ => False
      end.
+Proof. vm_compute. repeat split. Qed.
+
+(* ---------- references that carry the scheme of the special base: "http:x", "http:/x", "http://x" ---------- *)
+(* two leading '/' or '\' after "sch:" (same_two_sl): the Standard reaches the special authority ignore slashes
+   state - directly on "//" (special relative or authority state), through the relative and relative slash
+   states otherwise -, parser.rs counts two slashes and calls after_double_slash: the base is ignored on both
+   sides, the outcome is the one without base (part of in_class_abs_base) *)
+Theorem C01_same_scheme_two_slashes_spec : forall shp sb input sch R,
+  spec_scheme (spec_clean input) = Some (sch, R) -> same_two_sl sb sch R = true ->
+  outcome_eq (spec_basic_url_parse shp input (Some sb)) (spec_basic_url_parse shp input None).
+Proof. exact spec_same_two_sl. Qed.
+Print Assumptions C01_same_scheme_two_slashes_spec.
+
+Theorem C01_same_scheme_two_slashes_model : forall dbg hp hpo hd ovr b input sch R,
+  spec_scheme (spec_clean input) = Some (sch, R) -> is_special_scheme sch = true -> list_eqb sch str_file = false ->
+  two_sl R = true ->
+  parse_url dbg hp hpo hd ovr (Some b) input = parse_url dbg hp hpo hd ovr None input.
+Proof. exact model_same_two_sl. Qed.
+Print Assumptions C01_same_scheme_two_slashes_model.
+
+(* "sch:/x" (one slash or backslash): special relative or authority -> relative -> relative slash -> path state;
+   parser.rs: parse_relative on the text after "sch:" *)
+Theorem C01_eq_same_abs_s : forall dbg hp hpo hd shp shs input b sb,
+  usv_list input -> related dbg shs b sb -> scheme_canon (su_scheme sb) = true ->
+  in_class_same_abs_s sb input = true ->
+  exists su, spec_basic_url_parse shp input (Some sb) = BDone su /\ spec_base_ok su = true
+    /\ agree_rel_strict dbg shs (parse_url dbg hp hpo hd None (Some b) input) (BDone su).
+Proof. exact class_same_abs_s. Qed.
+Print Assumptions C01_eq_same_abs_s.
+
+(* "sch:x": path-relative against the base - a ':' later in x does not start a scheme again *)
+Theorem C01_eq_same_path_s : forall dbg hp hpo hd shp shs input b sb,
+  usv_list input -> related dbg shs b sb -> spec_base_ok sb = true ->
+  in_class_same_path_s sb input = true ->
+  exists su, spec_basic_url_parse shp input (Some sb) = BDone su /\ spec_base_ok su = true
+    /\ agree_rel_strict dbg shs (parse_url dbg hp hpo hd None (Some b) input) (BDone su).
+Proof. exact class_same_path_s. Qed.
+Print Assumptions C01_eq_same_path_s.
+
+(* ===== every base, every reference (task c01asm) ===== *)
+(* base_shape_ok sb: a special non-file record is not opaque and has a host (true of every parse result);
+   same_scheme_bare sb input: the reference is "sch:" + nothing / "?..." / "#..." with sch the special scheme of the
+   base - the one shape outside Known_C01 that is in no proved class (stated, not proved; the differential
+   run covers it).  Everything else outside Known_C01 is in in_proved_class3: *)
+Theorem C01_class3_complete_base : forall dbg shs b sb input,
+  good_base dbg shs b sb -> base_shape_ok sb = true -> same_scheme_bare sb input = false ->
+  known_c01 (Some b) input = 0 -> in_proved_class3 (Some sb) input = true.
+Proof. exact base_covers. Qed.
+Print Assumptions C01_class3_complete_base.
+
+(* C01_statement with a base (with C01_statement_nobase: all of C01_statement up to the named differences
+   and the bare same-scheme references) *)
+Theorem C01_statement_base : forall dbg hp hpo hd shp shs b sb input,
+  usv_list input -> good_base dbg shs b sb -> base_shape_ok sb = true -> same_scheme_bare sb input = false ->
+  known_c01 (Some b) input = 0 ->
+  host_hyp3 hp hpo hd shp shs (Some sb) input ->
+  agree_good dbg shs (parse_url dbg hp hpo hd None (Some b) input) (spec_basic_url_parse shp input (Some sb)).
+Proof. exact statement_base. Qed.
+Print Assumptions C01_statement_base.
+
+Theorem C01_statement_base_model : forall dbg idna, IdnaOK idna -> forall b sb input,
+  usv_list input -> good_base dbg spec_host_serializer b sb -> base_shape_ok sb = true ->
+  same_scheme_bare sb input = false -> known_c01 (Some b) input = 0 ->
+  agree_good dbg spec_host_serializer
+    (parse_url dbg (host_parse idna) host_parse_opaque host_display None (Some b) input)
+    (spec_basic_url_parse (spec_host_parser idna) input (Some sb)).
+Proof. exact statement_base_model. Qed.
+Check C01_statement_base_model : forall dbg idna, IdnaOK idna -> forall b sb input,
+  usv_list input -> (related dbg spec_host_serializer b sb /\ spec_base_ok sb = true) -> base_shape_ok sb = true ->
+  same_scheme_bare sb input = false -> known_c01 (Some b) input = 0 ->
+  let m := parse_url dbg (host_parse idna) host_parse_opaque host_display None (Some b) input in
+  match spec_basic_url_parse (spec_host_parser idna) input (Some sb) with
+  | BDone su => spec_base_ok su = true
+                /\ ((m = PErr Overflow /\ U32_MAX_P < nlen (get_href spec_host_serializer su))
+                    \/ exists u, m = POk u /\ related dbg spec_host_serializer u su)
+  | BFailure _ => exists e, m = PErr e
+  | BOutOfFuel => False
+  end.
+Print Assumptions C01_statement_base_model.
+
+(* non-vacuity: against the parse result of "http://example.com/a/b/c?q": "http:x/../y" -> http://example.com/a/b/y ;
+   "hTTp:\\z" -> http://example.com/z ;  "http:/\h.x/p" -> http://h.x/p (base ignored);  "http:foo:bar" ->
+   http://example.com/a/b/foo:bar (the second ':' starts no scheme).  "http:?z" is the bare shape: not in the
+   class (and, here, still equal on both sides). *)
+Example C01_same_scheme_nonvacuous :
+  let idna := ex_idna_clean in
+  let shp := spec_host_parser idna in
+  let P base i := parse_url true (host_parse idna) host_parse_opaque host_display None base i in
+  let S sbase i := spec_basic_url_parse shp i sbase in
+  let i0 := [104; 116; 116; 112; 58; 47; 47; 101; 120; 97; 109; 112; 108; 101; 46; 99; 111; 109; 47; 97; 47; 98; 47; 99; 63; 113] in
+  let i1 := [104; 116; 116; 112; 58; 120; 47; 46; 46; 47; 121] in
+  let i2 := [104; 84; 84; 112; 58; 92; 122] in
+  let i3 := [104; 116; 116; 112; 58; 47; 92; 104; 46; 120; 47; 112] in
+  let i4 := [104; 116; 116; 112; 58; 102; 111; 111; 58; 98; 97; 114] in
+  let i5 := [104; 116; 116; 112; 58; 63; 122] in
+  match P None i0, S None i0 with
+  | POk u0, BDone su0 =>
+      base_shape_ok su0 = true
+      /\ in_proved_class3 (Some su0) i1 = true /\ in_proved_class3 (Some su0) i2 = true
+      /\ in_proved_class3 (Some su0) i3 = true /\ in_proved_class3 (Some su0) i4 = true
+      /\ same_scheme_bare su0 i1 = false /\ same_scheme_bare su0 i5 = true /\ in_proved_class3 (Some su0) i5 = false
+      /\ known_c01 (Some u0) i1 = 0 /\ known_c01 (Some u0) i2 = 0 /\ known_c01 (Some u0) i3 = 0 /\ known_c01 (Some u0) i4 = 0
+      /\ match P (Some u0) i1, S (Some su0) i1 with
+         | POk u, BDone su => q_href u = [104; 116; 116; 112; 58; 47; 47; 101; 120; 97; 109; 112; 108; 101; 46; 99; 111; 109; 47; 97; 47; 98; 47; 121]
+                              /\ api_of_model true u = Some (spec_api_list spec_host_serializer su)
+         | _, _ => False end
+      /\ match P (Some u0) i2, S (Some su0) i2 with
+         | POk u, BDone su => q_href u = [104; 116; 116; 112; 58; 47; 47; 101; 120; 97; 109; 112; 108; 101; 46; 99; 111; 109; 47; 122]
+                              /\ api_of_model true u = Some (spec_api_list spec_host_serializer su)
+         | _, _ => False end
+      /\ match P (Some u0) i3, S (Some su0) i3 with
+         | POk u, BDone su => q_href u = [104; 116; 116; 112; 58; 47; 47; 104; 46; 120; 47; 112]
+                              /\ api_of_model true u = Some (spec_api_list spec_host_serializer su)
+         | _, _ => False end
+      /\ match P (Some u0) i4, S (Some su0) i4 with
+         | POk u, BDone su => q_href u = [104; 116; 116; 112; 58; 47; 47; 101; 120; 97; 109; 112; 108; 101; 46; 99; 111; 109; 47; 97; 47; 98; 47; 102; 111; 111; 58; 98; 97; 114]
+                              /\ api_of_model true u = Some (spec_api_list spec_host_serializer su)
+         | _, _ => False end
+      /\ match P (Some u0) i5, S (Some su0) i5 with
+         | POk u, BDone su => api_of_model true u = Some (spec_api_list spec_host_serializer su)
+         | _, _ => False end
+  | _, _ => False
+  end.
 Proof. vm_compute. repeat split. Qed.
